@@ -127,7 +127,7 @@ func c19Check(tier string) int {
 		samples = append(samples, s)
 	}
 	return finishEnum("C19", tier, start, res.Evaluations, res.Nontrivial, fails, samples,
-		"small-scope enumeration on the real internal/consensus, internal/crypto, internal/merkle code in one process: every payload kind x {view,height,index in {0,1,max}} x body fields in {0,1,max} / all ordered selections of <=3 of 3 hashes / 3 signatures / recovery messages from every subset of a 6-payload pool: hash is content-only, injective on content (all pairs, via maps), follows SetValidatorIndex; wire round trip of every decodable payload compared through the interface getters; proposal/response rebuilt from a recovery message; all byte strings of length <=2 (thorough: <=3), every truncation, single-byte substitution (5 values; thorough: all 255) and one-byte extension of ~190 valid encodings fed to the payload and block decoders under recover; blocks (5265 contents): hash injective, signature-independent, signatures verify only under the signer's key for that block; ECDSA 3 keys x 3 messages all combinations + every bit flip of one signature; Merkle roots injective over all lists of length <=6 over 3 leaves (same length); non-trivial = distinct payload + block contents",
+		"small-scope enumeration on the real internal/consensus, internal/crypto, internal/merkle code in one process: every payload kind x {view,height,index in {0,1,max}} x body fields in {0,1,max} / all ordered selections of <=3 of 3 hashes / 3 signatures / recovery messages from every subset of a 6-payload pool: hash is content-only, injective on content (all pairs, via maps), follows SetValidatorIndex; wire round trip of every decodable payload compared through the interface getters; proposal/response rebuilt from a recovery message; all byte strings of length <=2 (thorough: <=3), every truncation, single-byte substitution (5 values; thorough: all 255) and one-byte extension of ~190 valid encodings fed to the payload and block decoders under recover; blocks (5265 contents) and anti-MEV blocks built from a pre-block and three pre-commit data items (1728 contents): hash injective, signature-independent, signatures verify only under the signer's key for that block; ECDSA 3 keys x 3 messages all combinations + every bit flip of one signature; Merkle roots injective over all lists of length <=6 over 3 leaves (same length); non-trivial = distinct payload + block contents",
 		true, []string{"timestamps at the codec's one-second granularity; ChangeView newViewNumber/reason are not wire fields", "PreCommit payloads are not accepted by the reference decoder (not in its type switch), so they take part in hash checks only", "hashes are content-only within one process (gob type ids depend on first-use order)"})
 }
 
